@@ -349,6 +349,12 @@ class Interp:
                     vals_ = ([self_val] if self_val is not None else []) + list(args)
                     for p_, v_ in zip(ps_, vals_):
                         genv[p_] = v_
+                    if fn.args.vararg:
+                        genv[fn.args.vararg.arg] = ("list", list(vals_[len(ps_):]))
+                    nd_ = len(fn.args.defaults)
+                    for i_, p_ in enumerate(ps_):
+                        if p_ not in genv and i_ >= len(ps_) - nd_:
+                            genv[p_] = self.expr(fn.args.defaults[i_ - (len(ps_) - nd_)], {"@owner": owner, "@module": mod0}, depth + 1)
                     genv.update(kwargs)
                     return ("ctxgen", fn, genv, owner)
             user = []
@@ -560,6 +566,53 @@ class Interp:
         else:
             self.notes.append("unhandled statement " + type(s).__name__)
 
+    def handler_matches(self, h, exc, env, depth):
+        """does `except <h.type>` catch the raised abstract value `exc`?"""
+        if h.type is None:
+            return True
+        raised_cls = exc[1].cls if exc[0] == "obj" else (exc[1] if exc[0] == "cls" else None)
+        rname = None
+        if exc[0] in ("ext", "fn"):
+            rname = exc[1].split("(")[0].split(".")[-1]
+        ts = h.type.elts if isinstance(h.type, ast.Tuple) else [h.type]
+        mod = env.get("@module")
+        for t in ts:
+            # a variable holding the classes to catch (`except wanted as e` with wanted a tuple parameter)
+            if isinstance(t, ast.Name) and t.id in env:
+                v = env[t.id]
+                items = v[1] if v[0] == "list" else [v]
+                for x in items:
+                    if x[0] == "cls" and raised_cls is not None and x[1] in self.repo.mro(raised_cls):
+                        return True
+                    if x[0] == "ext":
+                        xn = x[1].split("(")[0].split(".")[-1]
+                        if xn in ("Exception", "BaseException") or (rname is not None and xn == rname):
+                            return True
+                        if raised_cls is not None and any(xn == b.split(".")[-1] for kk in self.repo.mro(raised_cls) for b in kk.ext_bases):
+                            return True
+                continue
+            k_ = self.repo.resolve_expr_class(mod, t) if mod is not None else None
+            if k_ is not None:
+                if raised_cls is not None:
+                    if k_ in self.repo.mro(raised_cls):
+                        return True
+                elif rname == k_.name:
+                    return True
+                continue
+            nm = unparse(t).split(".")[-1]
+            if isinstance(t, ast.Name) and mod is not None:
+                rr = self.repo.resolve_name(mod, t.id)
+                if rr and rr[0] == "ext" and isinstance(rr[1], str):
+                    nm = rr[1].split(".")[-1]
+            if nm in ("Exception", "BaseException"):
+                return True
+            if raised_cls is not None:
+                if any(nm == b.split(".")[-1] for kk in self.repo.mro(raised_cls) for b in kk.ext_bases):
+                    return True
+            elif rname == nm:
+                return True
+        return False
+
     def with_stmt(self, s, i, env, depth):
         """`with a, b: body` - entering and leaving a context manager are effects (ENTER / EXIT with the manager value), the
         exit also happens when the body raises / returns / breaks; a generator-based manager of this repository
@@ -622,13 +675,18 @@ class Interp:
                 handled = False
                 if isinstance(x, _Raise):
                     for h in trynode.handlers:
-                        hn = [unparse(t).split(".")[-1] for t in (h.type.elts if isinstance(h.type, ast.Tuple) else [h.type])] if h.type is not None else []
-                        name = x.exc[1].split("(")[0].split(".")[-1] if x.exc[0] in ("ext", "fn") else (x.exc[1].cls.name if x.exc[0] == "obj" and x.exc[1].cls else None)
-                        if h.type is None or "Exception" in hn or "BaseException" in hn or name in hn:
-                            self.block(h.body, genv, depth + 1)
+                        if self.handler_matches(h, x.exc, genv, depth):
+                            if h.name:
+                                genv[h.name] = x.exc
+                            genv["@exc"] = x.exc
+                            try:
+                                self.block(h.body, genv, depth + 1)
+                            finally:
+                                self.block(trynode.finalbody, genv, depth + 1)
                             handled = True
                             break
-                self.block(trynode.finalbody, genv, depth + 1)
+                if not handled:
+                    self.block(trynode.finalbody, genv, depth + 1)
                 if handled:
                     return
             raise
@@ -1026,7 +1084,19 @@ class Interp:
                     a = const_alts(Evaluator(self.repo, r[1], None).ev(r[2]))
                     if a is not None and len(a) == 1:
                         return ("c", a[0])
-                    return ("fn", "global " + n, [])
+                    # a module-level table of classes / functions (not a constant): interpreted once, in its own module
+                    key = ("@global", r[1].name, n)
+                    if key not in self.class_attrs:
+                        self.class_attrs[key] = ("fn", "global " + n, [])        # guards against self-reference
+                        if isinstance(r[2], (ast.Tuple, ast.List, ast.Dict, ast.Name, ast.Attribute, ast.Call)) and not any(isinstance(x, (ast.Lambda, ast.Yield, ast.Await)) for x in ast.walk(r[2])) \
+                                and not (isinstance(r[2], ast.Call) and not isinstance(r[2].func, ast.Name)):
+                            try:
+                                v_ = self.expr(r[2], {"@module": r[1], "@owner": None}, 1)
+                                if v_[0] in ("list", "dict", "cls", "closure") or (v_[0] == "c"):
+                                    self.class_attrs[key] = v_
+                            except (NeedAtom, _Raise, Budget):
+                                pass
+                    return self.class_attrs[key]
                 if r[0] == "func":
                     return ("closure", r[2], {"@module": r[1], "@owner": None}, None, None)
                 if r[0] == "module":
@@ -1098,6 +1168,8 @@ class Interp:
         if dk is not None:
             return "found", dk
         has_dyn = any(isinstance(x, tuple) and x and x[0] == "dyn" for x in d)
+        if key[0] == "ext" and key[2] and not opened and d and all(isinstance(x, tuple) and x and x[0] == "dyn" and v[0] == "list" and len(v[1]) == 2 and v[1][0][0] == "ext" and v[1][0][1] == key[1] and v[1][0] != key for x, v in d.items()):
+            return "absent", None          # value objects of one class built from other arguments: another key
         if key[0] == "cls" and not opened and all(isinstance(x, tuple) and x and x[0] == "dyn" and v[0] == "list" and len(v[1]) == 2 and v[1][0][0] == "cls" for x, v in d.items()):
             return "absent", None          # a table keyed by classes, asked for a class it does not list
         if not d and not opened:
@@ -1137,6 +1209,8 @@ class Interp:
                 return False
             if _dyn_find(container[1], item) is not None:
                 return True
+            if self.dict_lookup(container[1], False, item)[0] == "absent":
+                return False
             if item[0] == "atom":
                 for kx in container[1]:
                     if not (isinstance(kx, tuple) and kx and kx[0] == "dyn"):
@@ -1615,6 +1689,11 @@ class Interp:
                 return ("c", any(x[1] in self.repo.mro(v[1].cls) for x in cs))
             if v[0] == "node":
                 return ("c", any(x[0] == "cls" and x[1].name == "ProtocolTreeNode" for x in cs))
+            if v[0] in ("ext", "fn") and all(x[0] in ("ext", "cls") for x in cs) and not v[1].startswith("."):
+                # an opaque object known by the name of its class against classes known by name
+                vn = v[1].split("(")[0].split(".")[-1]
+                if vn[:1].isupper():
+                    return ("c", any((x[0] == "ext" and x[1].split("(")[0].split(".")[-1] == vn) or (x[0] == "cls" and x[1].name == vn and False) for x in cs))
             vc = self.concrete(v) if v[0] == "atom" else v
             if vc[0] == "c" and all(x[0] == "ext" for x in cs):
                 names = [x[1] for x in cs]
@@ -1793,6 +1872,10 @@ class Interp:
             return ("unk", "unbound")
         if k == "cls":
             return self.construct(fv[1], args, kwargs, env, depth, e)
+        if k == "fn" and fv[1].startswith(".") and len(fv[2]) == 1 and fv[2][0][0] == "ext" and not fv[2][0][1].startswith("module "):
+            # an attribute of an opaque object fetched first and called later (`f = self.manager.decrypt_msg; f(...)`):
+            # the same as calling the method
+            return self.method_call(fv[2][0], fv[1][1:], args, kwargs, env, depth, e)
         if k in ("ext", "fn"):
             label = fv[1]
             h = self.hooks.get("extcall")
